@@ -10,6 +10,7 @@ Bounded part (labelled): introspection children, UnknownObject answers and the i
 content of GetManagedObjects, by history enumeration against a reference model through the real
 handler (string building over XML and the reflection in DBusObject are outside the verified subset).
 """
+import gc
 import itertools
 import random
 
@@ -236,7 +237,7 @@ def make_handler():
 
 def want_ifs_of(o):
     w = {'org.example.T': {'P': 'value', 'Count': 0, 'Enabled': False, 'Label': '', 'Tags': []}, 'org.example.U': {'Q': -1}}
-    if type(o).__name__ == 'Derived':
+    if (o if isinstance(o, str) else type(o).__name__) == 'Derived':
         w['org.example.V'] = {'R': 'derived'}
     return w
 
@@ -300,7 +301,14 @@ def run_history(ops):
                     # objects of the base class and of a derived class adding an interface, in either order
                     o = instances[p] = classes_[(len(p) + step + len(ops)) % 2](p)
                 h.exportObject(o)
-                exported[p] = o
+                exported[p] = type(o).__name__
+                if (len(p) + step) % 3 == 0:
+                    # the application keeps no reference of its own (conn.exportObject(Obj(path))): the export is what keeps the
+                    # object visible until it is unexported
+                    instances.pop(p, None)
+                    del o
+                    gc.collect()
+                    o = exported[p]
                 kind = 'InterfacesAdded'
             else:
                 if p not in exported:
@@ -315,7 +323,7 @@ def run_history(ops):
         named = set(conn.sent[0].body[1].keys() if kind == 'InterfacesAdded' else conn.sent[0].body[1])
         if {n for n in named if n.startswith('org.example.')} != set(want_ifs_of(o)):
             return 'step %d %s(%s) of a %s object: the announcement names the interfaces %r, the object has %r' % (
-                step, op, p, type(o).__name__, sorted(named), sorted(want_ifs_of(o)))
+                step, op, p, o if isinstance(o, str) else type(o).__name__, sorted(named), sorted(want_ifs_of(o)))
         f = query_all(h, conn, exported)
         if f:
             return 'after step %d %s(%s) with exports %r: %s' % (step, op, p, sorted(exported), f)
@@ -333,7 +341,7 @@ def bounded(tier, seed):
             f = run_history([('export', p) for p in combo])
             if f:
                 return n, [{'function': 'txdbus.objects.DBusObjectHandler', 'clause': 'history', 'input': [list(x) for x in [('export', p) for p in combo]], 'detail': f}]
-    for _ in range(3000 if tier == 'thorough' else 60):
+    for _ in range(15000 if tier == 'thorough' else 60):
         hist = [rnd.choice(ops) for _ in range(rnd.randrange(2, 10))]
         n += 1
         f = run_history(hist)
@@ -355,7 +363,7 @@ def replay(function, clause, model):
 def run_bounded(tier, seed):
     n, failures = bounded(tier, seed)
     return {'tool': 'export/unexport history enumeration against a reference model (real DBusObjectHandler, fake connection); after every step GetManagedObjects, Introspect and UnknownObject answers at 9 paths incl. prefix-sharing siblings',
-            'bound': 'all export sets of size <= %d over 8 paths; %d random add/remove histories of length 2..9' % (3 if tier == 'thorough' else 2, 3000 if tier == 'thorough' else 60),
+            'bound': 'all export sets of size <= %d over 8 paths; %d random add/remove histories of length 2..9' % (3 if tier == 'thorough' else 2, 15000 if tier == 'thorough' else 60),
             'evaluations': n, 'failures': failures}
 
 
